@@ -57,6 +57,7 @@ class FakeServer(BaseComponent):
         self.http = HTTP(self).register(self)
         self.wire = {}      # tok -> list of ('w', bytes) | ('c',)
         self.errors = []
+        self.errpages = []  # body text of every error / redirect page, in the order the events were fired
 
     @handler('write', channel='web', priority=100)
     def _cap_write(self, sock, data):
@@ -65,6 +66,11 @@ class FakeServer(BaseComponent):
     @handler('close', channel='web', priority=100)
     def _cap_close(self, sock=None):
         self.wire.setdefault(sock, []).append(('c',))
+
+    @handler('httperror', channel='web', priority=100)
+    def _cap_page(self, event, *args, **kwargs):
+        # what HTTP._on_httperror is about to make the body (str(event) is idempotent)
+        self.errpages.append(str(event).encode('utf-8'))
 
     @handler('exception', channel='*', priority=100)
     def _cap_exc(self, etype, evalue, tb, handler=None, fevent=None):
@@ -247,6 +253,22 @@ def _e2e_controller():
 
         def kfile(self, size, piece, status, tag):         # file object (streamed in BUFSIZE pieces)
             return io.BytesIO(self._begin('file', size, piece, status, tag)[0])
+
+        def kanswer(self, how, status, tag):
+            """answers that are error / redirect events made by the handler (they carry the request's tag in
+               X-Case; the redirect points at /kbytes/1/0/200/<tag>)"""
+            from circuits.web.errors import httperror
+            self.produced[tag] = ('handler', how)
+            self.response.headers['X-Case'] = tag
+            if how == 'event':                             # return httperror(...) with any status
+                return httperror(self.request, self.response, int(status), description=tag)
+            if how == 'notfound':
+                return self.notfound(description=tag)
+            if how == 'forbidden':
+                return self.forbidden(description=tag)
+            if how == 'redirect':
+                return self.redirect('/kbytes/1/0/200/' + tag)
+            raise ValueError(how)
 
     E2ERoot.produced = {}
     return E2ERoot
